@@ -3313,7 +3313,18 @@ void ScriptThread::ScriptExecuteInternal(const VarListView& data)
     Director.m_CurrentThread = this;
 
     Stop();
-    m_ScriptVM->Execute(data);
+
+    try
+    {
+        m_ScriptVM->Execute(data);
+    }
+    catch (...)
+    {
+        // the VM was aborted: the scheduler must not keep pointing at this thread
+        Director.m_CurrentThread = currentThread;
+        Director.m_PreviousThread = previousThread;
+        throw;
+    }
 
     // restore the previous values
     Director.m_CurrentThread = currentThread;
